@@ -87,3 +87,13 @@ func CaddyConfig(c *Cert, apps map[string]any) string {
 	b, _ := json.Marshal(cfg)
 	return string(b)
 }
+
+// FromPEM rebuilds a Cert from its PEM parts (a certificate created by another process).
+func FromPEM(certPEM, keyPEM string, names ...string) (*Cert, error) {
+	c := &Cert{Names: names, CertPEM: certPEM, KeyPEM: keyPEM}
+	c.Pool = x509.NewCertPool()
+	c.Pool.AppendCertsFromPEM([]byte(certPEM))
+	var err error
+	c.TLS, err = tls.X509KeyPair([]byte(certPEM), []byte(keyPEM))
+	return c, err
+}
